@@ -282,3 +282,125 @@ func lk11PrivateReadBuffers(p *core.Prog, rep *core.Report) {
 	}
 	rep.Check(len(bad) == 0, "LK11", "read-path-private", fmt.Sprintf("the %d read call(s) below the positional read API use private buffers and store no per-file state", reads), p.Pos(entry.Pos()), strings.Join(sortedStr(bad), "; "), true)
 }
+
+// bt3FlushLoopComplete (C05/C04): once the staged records were written, the index-update loop of the flush visits
+// every staged record: it can be left only through its loop condition (an early error return applies a prefix of the
+// batch to the index, leaves the rest written but unindexed and the batch without its seal).
+func bt3FlushLoopComplete(p *core.Prog, rep *core.Report) {
+	R := p.R
+	rep.Rule("BT3", "flush applies every staged record: in Batch methods, a loop that updates the index (ShardedIndex.Put / Delete in its body) is left only through its loop condition or by panicking - no return or break inside the body")
+	n := 0
+	for _, fn := range p.LibFuncs() {
+		if core.RecvNamed(fn) != R.Batch {
+			continue
+		}
+		for _, lp := range naturalLoops(fn) {
+			upd := false
+			for blk := range lp.body {
+				for _, in := range blk.Instrs {
+					if ci, ok := in.(ssa.CallInstruction); ok {
+						if c := ci.Common().StaticCallee(); c != nil && core.RecvNamed(c) == R.ShardedIndex && (c.Name() == "Put" || c.Name() == "Delete") {
+							upd = true
+						}
+					}
+				}
+			}
+			if !upd {
+				continue
+			}
+			n++
+			var bad []string
+			for blk := range lp.body {
+				for _, s := range blk.Succs {
+					if lp.body[s] || blk == lp.header {
+						continue
+					}
+					bad = append(bad, "the index-update loop is left from its body at "+p.InstrPos(blk.Instrs[len(blk.Instrs)-1]))
+				}
+				if _, isRet := blk.Instrs[len(blk.Instrs)-1].(*ssa.Return); isRet {
+					bad = append(bad, "return inside the index-update loop at "+p.InstrPos(blk.Instrs[len(blk.Instrs)-1])+": the records after this one are on disk but never indexed, and Commit fails without sealing")
+				}
+			}
+			rep.Check(len(bad) == 0, "BT3", "flush-loop-complete:"+core.FuncKey(fn), "every staged record is applied to the index", p.Pos(fn.Pos()), strings.Join(sortedStr(bad), "; "), true)
+		}
+	}
+	if n == 0 {
+		core.Failf("vacuity guard: BT3 found no index-update loop in a Batch method")
+	}
+}
+
+// pool2SingleRelease: a pooled record obtained by a function is handed back at most once on every path (a second
+// release puts one object into the pool twice: two later users then share it).
+func pool2SingleRelease(p *core.Prog, rep *core.Report) {
+	rep.Rule("POOL2", "single release: in every function that takes a *LogRecord from the sync.Pool, the release (the library function that calls Pool.Put on a record, direct or deferred) is executed at most once per path for that record")
+	// release functions: library functions that call (*sync.Pool).Put with their *LogRecord parameter
+	release := map[*ssa.Function]int{}
+	for _, fn := range p.LibFuncs() {
+		for _, b := range fn.Blocks {
+			for _, in := range b.Instrs {
+				if ci, ok := in.(ssa.CallInstruction); ok && core.StaticCalleeIs(ci.Common(), poolPut) && len(ci.Common().Args) > 1 {
+					if pi := paramIndex(fn, core.Unwrap(ci.Common().Args[1])); pi >= 0 {
+						release[fn] = pi
+					}
+				}
+			}
+		}
+	}
+	n := 0
+	for _, fn := range p.LibFuncs() {
+		var gets []ssa.Value
+		for _, b := range fn.Blocks {
+			for _, in := range b.Instrs {
+				if c, ok := in.(*ssa.Call); ok && core.StaticCalleeIs(c.Common(), poolGet) {
+					for _, ref := range *c.Referrers() {
+						if ta, ok := ref.(*ssa.TypeAssert); ok && strings.HasSuffix(ta.AssertedType.String(), "datafile.LogRecord") {
+							gets = append(gets, ta)
+						}
+					}
+				}
+			}
+		}
+		if len(gets) == 0 {
+			continue
+		}
+		n++
+		var bad []string
+		eng := core.NewEngine(p, core.Hooks{
+			Name:   "POOL2",
+			Follow: func(f *ssa.Function) bool { return false },
+			Step: func(x *core.Exec, in ssa.Instruction, a core.AState) ([]core.StepOut, bool) {
+				ci, ok := in.(ssa.CallInstruction)
+				if !ok {
+					return nil, false
+				}
+				c := ci.Common()
+				callee := c.StaticCallee()
+				var rec ssa.Value
+				if pi, ok := release[callee]; ok && callee != nil && pi < len(c.Args) {
+					rec = c.Args[pi]
+				} else if core.StaticCalleeIs(c, poolPut) && len(c.Args) > 1 {
+					rec = core.Unwrap(c.Args[1])
+				}
+				if rec == nil {
+					return nil, false
+				}
+				for i, g := range gets {
+					if sameOriginLoose(rec, g) {
+						k := fmt.Sprintf("r%d,", i)
+						if strings.Contains(a, k) {
+							bad = append(bad, "the record taken from the pool at "+p.InstrPos(g.(ssa.Instruction))+" is released a second time at "+p.InstrPos(in)+": the pool then holds one object twice and two later users share it")
+							return []core.StepOut{{A: a}}, true
+						}
+						return []core.StepOut{{A: a + k}}, true
+					}
+				}
+				return nil, false
+			},
+		})
+		eng.Run(fn, "", "")
+		rep.Check(len(bad) == 0, "POOL2", "single-release:"+core.FuncKey(fn), "each pooled record is released at most once per path", p.Pos(fn.Pos()), strings.Join(sortedStr(bad), "; "), true)
+	}
+	if n < 3 {
+		core.Failf("vacuity guard: POOL2 expected >= 3 functions taking records from the pool, found %d", n)
+	}
+}
